@@ -48,6 +48,7 @@ type Scenario struct {
 	Policy     string  `json:"policy"`
 	Seed       int64   `json:"seed"`
 	Script     []string `json:"script,omitempty"` // optional: replay this exact release order
+	Aliases    []int    `json:"aliases,omitempty"` // nodes with exactly one dependency that are alias nodes (same walk, another node type)
 }
 
 type Event struct {
@@ -100,18 +101,27 @@ func runScenario(t *testing.T, sc Scenario) (res Result) {
 	rng := rand.New(rand.NewSource(sc.Seed))
 	free := sc.Policy == "free"
 
-	targets := make([]*model.Target, sc.N+1)
+	targets := make([]model.BuildNode, sc.N+1)
 	sel := map[int]bool{}
 	for _, s := range sc.Selected {
 		sel[s] = true
 	}
+	isAlias := map[int]bool{}
+	for _, a := range sc.Aliases {
+		isAlias[a] = true
+	}
 	isRoot := map[int]bool{}
 	for i := 1; i <= sc.N; i++ {
-		tg := &model.Target{Label: label.TL("", fmt.Sprintf("n%d", i)), IsSelected: sel[i]}
-		for _, d := range sc.Deps[i-1] {
-			tg.Dependencies = append(tg.Dependencies, targets[d].Label)
-		}
+		lbl := label.TL("", fmt.Sprintf("n%d", i))
 		isRoot[i] = len(sc.Deps[i-1]) == 0
+		if isAlias[i] && len(sc.Deps[i-1]) == 1 {
+			targets[i] = &model.Alias{Label: lbl, Actual: targets[sc.Deps[i-1][0]].GetLabel(), IsSelected: sel[i]}
+			continue
+		}
+		tg := &model.Target{Label: lbl, IsSelected: sel[i]}
+		for _, d := range sc.Deps[i-1] {
+			tg.Dependencies = append(tg.Dependencies, targets[d].GetLabel())
+		}
 		targets[i] = tg
 	}
 	nodes := make([]model.BuildNode, 0, sc.N)
@@ -488,6 +498,14 @@ func genScenarios(seed int64, count, maxN int) []Scenario {
 		}
 		sc := Scenario{ID: i + 1, N: n, Deps: deps, Selected: sel, FailFast: rng.Intn(2) == 0,
 			NumWorkers: 1 + rng.Intn(3), Fail: fail, ExtCancel: ext, Policy: policies[rng.Intn(len(policies))], Seed: rng.Int63()}
+		if i%3 == 1 {
+			// a third of the scenarios: every node with exactly one dependency is an alias node
+			for k := 1; k <= n; k++ {
+				if len(deps[k-1]) == 1 {
+					sc.Aliases = append(sc.Aliases, k)
+				}
+			}
+		}
 		if i%9 == 4 && maxN >= 4 {
 			// saturated pool at the moment the walk ends: a wide graph, few workers, every callback parked in the pool, then a
 			// fail-fast failure or an external cancellation (Execute's deferred Shutdown closes the queue under blocked senders)
